@@ -102,6 +102,32 @@ func main() {
 			v := rng.SchValue(t, 't', nil)
 			runVal(out, fmt.Sprintf("g%d.%d", i, j), t, v)
 		}
+		// a twin schema under the SAME type names (other discriminants / renames), used in alternation:
+		// nothing may be remembered per type name across type systems
+		if tw := lib.SchTwin(t, fmt.Sprintf("G%d", i)); tw != nil {
+			for j := 0; j < 3; j++ {
+				runVal(out, fmt.Sprintf("g%d.w%d", i, j), tw, rng.SchValue(tw, 't', nil))
+				runVal(out, fmt.Sprintf("g%d.v%d", i, j), t, rng.SchValue(t, 't', nil))
+			}
+		}
+	}
+	// fixed twins: one keyed union name, two discriminant tables
+	{
+		mk := func(d1, d2 string) *lib.SchTy {
+			u := lib.SchUnion('k', lib.SchMember{Name: "TwA", Disc: d1, Kind: 'm', T: lib.SchScalar('I')},
+				lib.SchMember{Name: "TwB", Disc: d2, Kind: 'm', T: lib.SchScalar('S')})
+			lib.SchAssignNames(u, "Tw")
+			return u
+		}
+		a, b := mk("i", "s"), mk("s", "other")
+		va := lib.Map(lib.Entry{K: "TwA", V: lib.Int(1)})
+		vb := lib.Map(lib.Entry{K: "TwB", V: lib.Str("x")})
+		for j, c := range []struct {
+			t *lib.SchTy
+			v *lib.Val
+		}{{a, va}, {b, va}, {a, vb}, {b, vb}, {a, va}} {
+			runVal(out, fmt.Sprintf("tw%d", j), c.t, c.v)
+		}
 	}
 	// generated code: the conforming corpus values in the generator's feature set + dedicated schemas
 	var gs []*lib.SchTy
